@@ -3,7 +3,7 @@
 From Coq Require Import ZArith NArith List Lia Bool Arith Sorted.
 Import ListNotations.
 From AV Require Import model.Syntax model.UnitTypes model.Map model.Units model.Compound model.Cbor model.Codec proofs.MapProofs proofs.CborProofs
-  gen.UnitDefs gen.Shipped.
+  gen.UnitDefs gen.Shipped spec.RefIds.
 Open Scope N_scope.
 
 (* ---- u32 digit vectors ---- *)
@@ -59,6 +59,14 @@ Theorem ids_unique : nodupb derived_ids = true /\ nodupb id_consts = true /\
   forallb (fun i => existsb (N.eqb i) derived_ids) (List.map fst id_to_derived_table) = true /\
   forallb (fun i => existsb (N.eqb i) (List.map fst id_to_derived_table)) derived_ids = true.
 Proof. vm_compute. repeat split. Qed.
+
+(* identifiers are stable: every identifier of the pinned reference table still belongs to a derived unit that prints the same
+   symbol (units may be added; none may be renumbered or have its identifier reused) *)
+Definition same_chars (a b : list N) : bool := if list_eq_dec N.eq_dec a b then true else false.
+Definition ref_id_kept (r : N * list N) : bool :=
+  existsb (fun d : N * list (N * Z) * conv * list N * list N => let '(i, _, _, sg, _) := d in N.eqb i (fst r) && same_chars sg (snd r)) derived_table.
+Theorem ids_stable : forallb ref_id_kept ref_ids = true.
+Proof. vm_compute. reflexivity. Qed.
 
 Definition known_unit (u : unit) : bool :=
   if is_base u then match base_name (u - BASE_CODE) with Some _ => true | None => false end
